@@ -435,6 +435,7 @@ def run(ctx, progs):
         D = PosDiscipline(P)
         r1_min_aligned(ctx, P, D)
         r1c_aligner_forms(ctx, P)
+        c01.r6r7_primitives(ctx, P, R6="C10.R1b", R7="C10.R1b")
         r2r3_accounting(ctx, P)
         r3b_erased_header_arith(ctx, P)
         r4_links(ctx, P, D)
